@@ -139,7 +139,10 @@ def build(T):
         return dt.EnumType(T.get('name', 'e'), members=dict(T['members']))
     if k == 'string':
         if T.get('text'):
-            return dt.TextType(T.get('max'))
+            res = dt.TextType(T.get('max'))
+            if T.get('utf8'):
+                res.setProperty('isUTF8', True)     # as an override Parameter(isUTF8=True) or the configuration would do
+            return res
         return dt.StringType(T['min'], dt.UNLIMITED if T.get('max') is None else T['max'],
                              isUTF8=bool(T.get('utf8')))
     if k == 'blob':
